@@ -289,13 +289,54 @@ func posIndex
   option pure
   ensures while-a-candidate-row-is-tested-the-position-is-just-past-the-matched-rows-otherwise-the-current-row: result == ite(ctx.candidate != nil, len(ctx.rows), ctx.cur)
 
-extern optInt
+func optInt
   props C15
   option pure
+  ensures a-missing-argument-takes-the-default: idx >= len(args) ==> result == def
+  before Atoi the-number-read-is-the-argument-at-that-position-blanks-aside: $arg0 == strings.TrimSpace(args[idx])
+  observe n := Atoi
+  observe nerr := Atoi#1
+  atreturn an-argument-that-is-a-number-is-that-number-anything-else-the-default: idx < len(args) ==> result == ite($nerr == nil, $n, def)
 
-extern fieldName
+pred sqBare(a) := strings.Trim(strings.TrimSpace(a), "`")
+pred sqQuoted(t) := len(t) >= 2 && ((t[0] == 39 && t[len(t) - 1] == 39) || (t[0] == 34 && t[len(t) - 1] == 34))
+
+// an argument written in a DEFINE / MEASURES expression: blanks, backticks and one pair of quotes dropped
+func stripQuotes
+  props C15
+  option safety
+  option pure
+  ensures blanks-backticks-and-one-pair-of-quotes-are-dropped: result == ite(sqQuoted(sqBare(a)), sqBare(a)[1:len(sqBare(a)) - 1], sqBare(a))
+
+// what counts as true for a DEFINE condition: a boolean is itself, a number is true unless zero, text unless empty,
+// anything else unless NULL
+func truthy
   props C15
   option pure
+  ensures a-boolean-is-itself: hasType(v, bool) ==> (result <==> boolval(v))
+  ensures a-number-is-true-unless-zero: (hasType(v, float64) ==> (result <==> realval(v) != 0.0)) && (hasType(v, int) || hasType(v, int64) ==> (result <==> intval(v) != 0))
+  ensures text-is-true-unless-empty: hasType(v, string) ==> (result <==> strval(v) != "")
+  ensures null-is-false: v == nil ==> !result
+
+// A.price names the column price of the rows labelled A; a bare name has no symbol
+func fieldAndSymbol
+  props C15
+  option safety
+  option pure
+  ensures a-qualified-argument-splits-at-its-first-dot: strings.IndexByte(strings.TrimSpace(arg), 46) >= 0 ==> field == stripQuotes(strings.TrimSpace(arg)[strings.IndexByte(strings.TrimSpace(arg), 46) + 1:]) && symbol == stripQuotes(strings.TrimSpace(arg)[:strings.IndexByte(strings.TrimSpace(arg), 46)])
+  ensures a-bare-argument-has-no-symbol: strings.IndexByte(strings.TrimSpace(arg), 46) < 0 ==> field == stripQuotes(strings.TrimSpace(arg)) && symbol == ""
+
+// the row a DEFINE condition is about: the candidate row while one is being tested, else the row at the cursor
+func currentRow
+  props C15
+  option safety
+  requires ctx != nil
+  ensures the-candidate-row-while-one-is-tested-else-the-row-at-the-cursor: result == ite(ctx.candidate != nil, ctx.candidate, ite(ctx.cur >= 0 && ctx.cur < len(ctx.rows), ctx.rows[ctx.cur], nil))
+
+func fieldName
+  props C15
+  option pure
+  ensures the-column-is-the-last-segment-of-the-unquoted-argument: result == ite(strings.LastIndex(stripQuotes(arg), ".") >= 0, stripQuotes(arg)[strings.LastIndex(stripQuotes(arg), ".") + 1:], stripQuotes(arg))
 
 func positionalField
   props C15
